@@ -16,7 +16,7 @@ func OName(k int) string {
 
 type Outcome struct {
 	Kind      int  `json:"k,omitempty"`
-	PanicKind int  `json:"pk,omitempty"` // 0 string 1 error 2 struct 3 int 4 nil-map write 5 index out of range
+	PanicKind int  `json:"pk,omitempty"` // 0 string 1 error 2 struct 3 int 4 nil-map write 5 index out of range 6 slice (not comparable) 7 slice-typed error (not comparable) 8 map (not comparable)
 	Delay     int  `json:"d,omitempty"`  // 0 none 1 yields 2 spin microseconds
 	DelayArg  int  `json:"da,omitempty"`
 	Gate      bool `json:"g,omitempty"`
@@ -85,6 +85,9 @@ func tag(exec, h uint64) uint64 {
 	}
 	return exec<<44 | low
 }
+
+// NumPanicKinds is the number of kinds of panic values the stubs can raise.
+const NumPanicKinds = 9
 
 // Poison tokens mark values that a Bare program stores into its argument
 // variables once the first user function has been entered.
@@ -207,14 +210,14 @@ func GenScenario(p *Program, r *Rand, exec uint64, tagName string, k int) *Scena
 		case x < 8 || !allowPanic:
 			return Outcome{Kind: OFalse}
 		default:
-			return Outcome{Kind: OPanic, PanicKind: r.Intn(6)}
+			return Outcome{Kind: OPanic, PanicKind: r.Intn(NumPanicKinds)}
 		}
 	}
 	failOutcome := func(f *Fn, panicsOnly bool) Outcome {
 		if f.Err && !panicsOnly && r.Chance(1, 2) {
 			return Outcome{Kind: OErr}
 		}
-		return Outcome{Kind: OPanic, PanicKind: r.Intn(6)}
+		return Outcome{Kind: OPanic, PanicKind: r.Intn(NumPanicKinds)}
 	}
 	keep := func(id int, o Outcome) {
 		old := s.Out[id]
@@ -353,7 +356,7 @@ func GenScenario(p *Program, r *Rand, exec uint64, tagName string, k int) *Scena
 		}
 		f := cand[k%len(cand)]
 		round := k / len(cand)
-		o := Outcome{Kind: OPanic, PanicKind: k % 6}
+		o := Outcome{Kind: OPanic, PanicKind: k % NumPanicKinds}
 		if f.Err && round%2 == 0 {
 			o = Outcome{Kind: OErr}
 		}
